@@ -220,7 +220,10 @@ def piecewise_tv(R, levels):
             R.rng.shuffle(ps)
             ps = ps[:2]
         for lv in levels:
-            for (l, hpc) in ps:
+            # every piece at -O2; at the other levels every 8th piece (thorough) - the optimiser pipelines of -O1/-O3 differ
+            # from -O2 only in inlining/unrolling heuristics for this code
+            pslv = ps if (lv == "O2" or R.quick()) else ps[::8]
+            for (l, hpc) in pslv:
                 x, ins, dom = O.piece_var(l, hpc, bits)
                 st = {"sqrt": lambda ctx, args: SQRTD(args[0])}
                 c1 = R.call(h, fn, [x], opts=E.Opts(stubs=st, track_ub=False), ir="S")
@@ -232,4 +235,4 @@ def piecewise_tv(R, levels):
     R.outside.append("asin beyond 0.6 (the branch through sqrt) and atan beyond 39/16 are compared by the full-width hunts only")
     R.bounds.append("piecewise equivalence of sin, cos, tan, asin (series branch), atan (direct segments) between the source-faithful IR and the optimised IR on "
                     "their stated finite domains: %d piece queries this run (%s)" % (
-                        total, "a VERIF_SEED sample of 2 pieces per function" if R.quick() else "every piece"))
+                        total, "a VERIF_SEED sample of 2 pieces per function" if R.quick() else "every piece at -O2, every 8th at -O1/-O3"))
